@@ -730,6 +730,8 @@ struct GenCx<'a> {
     /// aim the references at the names which another file defines by preference:
     /// (library of that file, its index there)
     target: Option<(&'a str, usize)>,
+    /// number of files of the own library
+    nlib: usize,
 }
 
 /// a library prefix for a reference and the library clause it needs
@@ -786,6 +788,23 @@ fn ref_idx(rng: &mut Rng, cx: &GenCx, n: usize) -> usize {
     }
 }
 
+/// the primary unit of a lone secondary unit: mostly the name that another file of the library
+/// defines by preference, so that primary and secondary units live in different files
+fn sec_idx(rng: &mut Rng, cx: &GenCx, n: usize) -> usize {
+    let r = rng.below(10);
+    if r < 6 && cx.nlib > 1 {
+        let mut j = rng.below(cx.nlib - 1);
+        if j >= cx.idx {
+            j += 1;
+        }
+        j % n
+    } else if r < 9 {
+        cx.idx % n
+    } else {
+        rng.below(n)
+    }
+}
+
 fn lib_clause(l: &Option<String>) -> String {
     match l {
         Some(l) => format!("library {l};\n"),
@@ -799,8 +818,9 @@ fn entity_text(name: &str) -> String {
     format!("entity {name} is\n{PORTS}end entity;\n")
 }
 
-fn arch_text(rng: &mut Rng, ent: &str) -> String {
-    let aname = if rng.chance(1, 8) { "alt" } else { "rtl" };
+fn arch_text(rng: &mut Rng, ent: &str, lone: bool) -> String {
+    // an architecture in a file of its own is often a second architecture
+    let aname = if rng.chance(if lone { 4 } else { 1 }, 9) { "alt" } else { "rtl" };
     let unused = if rng.chance(3, 4) {
         format!("  signal unused_{} : bit;\n", rng.below(3))
     } else {
@@ -816,6 +836,16 @@ fn arch_text(rng: &mut Rng, ent: &str) -> String {
     )
 }
 
+fn pkg_decl_text(k: usize) -> String {
+    format!("package p{k} is\n  constant c{k} : integer;\n  function f{k}(x : integer) return integer;\nend package;\n")
+}
+
+fn pkg_body_text(b: usize, uses: &str, init: &str) -> String {
+    format!(
+        "{uses}package body p{b} is\n  constant c{b} : integer := {init};\n  function f{b}(x : integer) return integer is\n  begin\n    return x + 1;\n  end function;\nend package body;\n"
+    )
+}
+
 fn inst_arch_text(rng: &mut Rng, cx: &GenCx, ent: &str) -> String {
     let (lc, lib) = pick_lib(rng, cx);
     let t = ref_idx(rng, cx, NE);
@@ -824,7 +854,7 @@ fn inst_arch_text(rng: &mut Rng, cx: &GenCx, ent: &str) -> String {
     let inst = match rng.below(5) {
         0 | 1 => format!("  u0 : entity {lib}.e{t} port map (a => x, q => y);\n"),
         2 => {
-            let an = if rng.chance(1, 6) { "alt" } else { "rtl" };
+            let an = if rng.chance(1, 4) { "alt" } else { "rtl" };
             format!("  u0 : entity {lib}.e{t}({an}) port map (a => x, q => y);\n")
         }
         3 => {
@@ -888,20 +918,16 @@ fn try_gen_unit(rng: &mut Rng, cx: &GenCx) -> Option<(String, Vec<String>)> {
         ),
         // 6 deferred constant, body in the same file / elsewhere / body alone
         47..=63 => {
-            let decl = format!(
-                "package p{k} is\n  constant c{k} : integer;\n  function f{k}(x : integer) return integer;\nend package;\n"
-            );
+            let decl = pkg_decl_text(k);
             let which = rng.below(17);
-            // a lone body belongs to this file's own package name or to any package name
-            let b = if which >= 10 && rng.chance(1, 4) { rng.below(NP) } else { k };
+            // a lone body mostly belongs to the package of another file
+            let b = if which >= 10 { sec_idx(rng, cx, NP) } else { k };
             let (uses, init) = if rng.chance(1, 3) {
                 (format!("{clause}use {lib}.p{x}.all;\n"), format!("c{x}"))
             } else {
                 (String::new(), format!("{}", 1 + rng.below(7)))
             };
-            let body = format!(
-                "{uses}package body p{b} is\n  constant c{b} : integer := {init};\n  function f{b}(x : integer) return integer is\n  begin\n    return x + 1;\n  end function;\nend package body;\n"
-            );
+            let body = pkg_body_text(b, &uses, &init);
             if which < 6 {
                 (format!("{decl}\n{body}"), vec![format!("P:p{k}"), format!("B:p{k}")])
             } else if which < 10 {
@@ -912,32 +938,33 @@ fn try_gen_unit(rng: &mut Rng, cx: &GenCx) -> Option<(String, Vec<String>)> {
         }
         // 7 entity / architecture with lint material
         64..=85 => {
-            let e = def_idx(rng, cx, NE)?;
             let which = rng.below(22);
-            if which < 8 {
-                let a = arch_text(rng, &format!("e{e}"));
+            if which < 5 {
+                let e = def_idx(rng, cx, NE)?;
+                let a = arch_text(rng, &format!("e{e}"), false);
                 (
                     format!("{}\n{}", entity_text(&format!("e{e}")), a),
                     vec![format!("P:e{e}"), format!("A:e{e}")],
                 )
             } else if which < 13 {
+                let e = def_idx(rng, cx, NE)?;
                 (entity_text(&format!("e{e}")), vec![format!("P:e{e}")])
             } else {
-                let t = if rng.chance(4, 5) { e } else { rng.below(NE) };
-                (arch_text(rng, &format!("e{t}")), vec![format!("A:e{t}")])
+                let t = sec_idx(rng, cx, NE);
+                (arch_text(rng, &format!("e{t}"), true), vec![format!("A:e{t}")])
             }
         }
         // 8 instantiating architecture
         86..=97 => {
-            let e = def_idx(rng, cx, NE)?;
-            if rng.chance(2, 3) {
+            if rng.chance(1, 2) {
+                let e = def_idx(rng, cx, NE)?;
                 let a = inst_arch_text(rng, cx, &format!("e{e}"));
                 (
                     format!("{}\n{}", entity_text(&format!("e{e}")), a),
                     vec![format!("P:e{e}"), format!("A:e{e}")],
                 )
             } else {
-                let t = if rng.chance(3, 4) { e } else { rng.below(NE) };
+                let t = sec_idx(rng, cx, NE);
                 (inst_arch_text(rng, cx, &format!("e{t}")), vec![format!("A:e{t}")])
             }
         }
@@ -946,8 +973,9 @@ fn try_gen_unit(rng: &mut Rng, cx: &GenCx) -> Option<(String, Vec<String>)> {
             let n = def_idx(rng, cx, N2)?;
             let t = ref_idx(rng, cx, NE);
             let pre = if rng.chance(1, 3) { "work." } else { "" };
+            let an = if rng.chance(1, 4) { "alt" } else { "rtl" };
             (
-                format!("configuration cfg{n} of {pre}e{t} is\n  for rtl\n  end for;\nend configuration;\n"),
+                format!("configuration cfg{n} of {pre}e{t} is\n  for {an}\n  end for;\nend configuration;\n"),
                 vec![format!("P:cfg{n}")],
             )
         }
@@ -1032,7 +1060,7 @@ fn gen_variant(rng: &mut Rng, cx: &GenCx) -> String {
             let (t, names) = gen_unit(rng, cx);
             tries += 1;
             let clash = names.iter().any(|x| defined.contains(x));
-            if !clash || tries > 6 || rng.chance(1, 40) {
+            if !clash || tries > 30 || rng.chance(1, 150) {
                 defined.extend(names);
                 parts.push(t);
                 break;
@@ -1056,7 +1084,11 @@ fn gen_history(rng: &mut Rng, id: String, max_steps: usize) -> History {
     let nfiles = 3 + rng.below(4);
     let mut per_lib: Vec<usize> = vec![1; libs.len()];
     for _ in libs.len()..nfiles {
-        let i = rng.below(libs.len());
+        // at most NP files per library: every file has a package name of its own
+        let mut i = rng.below(libs.len());
+        if per_lib[i] >= NP {
+            i = (0..libs.len()).find(|j| per_lib[*j] < NP).unwrap_or(i);
+        }
         per_lib[i] += 1;
     }
     let mut libraries = BTreeMap::new();
@@ -1078,6 +1110,7 @@ fn gen_history(rng: &mut Rng, id: String, max_steps: usize) -> History {
                 libs: &libs,
                 idx: f.2,
                 target: tgt,
+                nlib: per_lib[f.1],
             },
         )
     };
@@ -1088,6 +1121,39 @@ fn gen_history(rng: &mut Rng, id: String, max_steps: usize) -> History {
         let t = variant(rng, f, None);
         initial.insert(f.0.clone(), t.clone());
         cur.insert(f.0.clone(), t);
+    }
+    // often a primary unit and its secondary unit start in two files of one library
+    if rng.chance(3, 10) {
+        let cands: Vec<usize> = (0..libs.len()).filter(|l| per_lib[*l] >= 2).collect();
+        if !cands.is_empty() {
+            let l = *rng.pick(&cands);
+            let of_lib: Vec<&(String, usize, usize)> = files.iter().filter(|f| f.1 == l).collect();
+            let i = rng.below(of_lib.len());
+            let mut j = rng.below(of_lib.len() - 1);
+            if j >= i {
+                j += 1;
+            }
+            let (f, g) = (of_lib[i], of_lib[j]);
+            let cx = GenCx {
+                own: Some(&libs[l]),
+                libs: &libs,
+                idx: g.2,
+                target: None,
+                nlib: per_lib[l],
+            };
+            let (tf, tg) = if f.2 < NE && rng.chance(3, 5) {
+                let e = format!("e{}", f.2);
+                let a = if rng.chance(2, 3) { arch_text(rng, &e, false) } else { inst_arch_text(rng, &cx, &e) };
+                (entity_text(&e), a)
+            } else {
+                let k = f.2 % NP;
+                (pkg_decl_text(k), pkg_body_text(k, "", "4"))
+            };
+            for (name, t) in [(&f.0, tf), (&g.0, tg)] {
+                initial.insert(name.clone(), t.clone());
+                cur.insert(name.clone(), t);
+            }
+        }
     }
     let lints = rng.chance(9, 10);
     let nsteps = 1 + rng.below(std::cmp::max(1, max_steps));
@@ -1147,13 +1213,35 @@ fn gen_history(rng: &mut Rng, id: String, max_steps: usize) -> History {
                     libs: &libs,
                     idx,
                     target: None,
+                    nlib: 2,
                 },
             );
             if !unm.contains(&f) {
                 unm.push(f.clone());
             }
             push(&mut steps, &mut cur, &mut prev, &f, t, "unmapped");
-        } else if r < 50 && steps.len() + 2 <= nsteps && files.len() >= 2 {
+        } else if r < 47 && steps.len() + 2 <= nsteps && files.len() >= 2 {
+            // a dependency between two files comes, goes and comes back with the other direction
+            let i = rng.below(files.len());
+            let mut j = rng.below(files.len() - 1);
+            if j >= i {
+                j += 1;
+            }
+            let (f, g) = (files[i].clone(), files[j].clone());
+            if steps.len() + 3 <= nsteps {
+                let t = variant(rng, &f, Some((libs[g.1].as_str(), g.2)));
+                push(&mut steps, &mut cur, &mut prev, &f.0, t, "replace");
+            }
+            let t = match rng.below(4) {
+                0 => String::new(),
+                1 => format!("package p{} is\n  constant c{} : integer := 1;\nend package;\n", f.2 % NP, f.2 % NP),
+                _ => variant(rng, &f, None),
+            };
+            let kind = if t.is_empty() { "empty" } else { "replace" };
+            push(&mut steps, &mut cur, &mut prev, &f.0, t, kind);
+            let t = variant(rng, &g, Some((libs[f.1].as_str(), f.2)));
+            push(&mut steps, &mut cur, &mut prev, &g.0, t, "replace");
+        } else if r < 60 && steps.len() + 2 <= nsteps && files.len() >= 2 {
             // swap the contents of two files
             let i = rng.below(files.len());
             let mut j = rng.below(files.len() - 1);
@@ -1335,7 +1423,14 @@ fn main() {
     if args.len() < 2 {
         usage();
     }
-    std::panic::set_hook(Box::new(|_| {}));
+    // panics of the implementation are caught and recorded; only failures of the harness are shown
+    std::panic::set_hook(Box::new(|info| {
+        if let Some(l) = info.location() {
+            if l.file().ends_with("c01.rs") {
+                eprintln!("c01: harness failure: {info}");
+            }
+        }
+    }));
     match args[1].as_str() {
         "run" => {
             if args.len() < 6 {
@@ -1395,7 +1490,7 @@ fn main() {
             let mut hist: BTreeMap<String, (usize, String)> = BTreeMap::new();
             for i in 0..n {
                 let own = if i % 5 == 4 { None } else { Some("lib_a") };
-                let (t, _) = gen_unit(&mut rng, &GenCx { own, libs: &libs, idx: i % 3, target: None });
+                let (t, _) = gen_unit(&mut rng, &GenCx { own, libs: &libs, idx: i % 3, target: None, nlib: 3 });
                 std::fs::write(dir.join("a0.vhd"), &t).unwrap();
                 let h = History {
                     id: "x".into(),
